@@ -106,6 +106,7 @@ type Exec struct {
 	FeasCalls   int
 	Tags        map[int]string // harness-given names of objects (vTag)
 	stubCalls   map[string]int
+	LockRules   []LockRule
 	Concrete    map[string]string // when set, inputs are these concrete values (interpreter replay)
 	PruneIf     bool              // ask the solver at every symbolic branch whether each side is feasible
 	Deadline    time.Time
